@@ -399,24 +399,3 @@ Fixpoint aand_complete (s : aand) (j : nat) : aand :=   (* j of the pending inpu
   match j with O => s | S j' => aand_complete (aand_cb s) j' end.
 
 Definition npending (inputs : list bool) : nat := List.length (filter negb inputs).
-
-(* ---------------------------------------------------------------- the gifter's side of a third-party introduction (C09)
-   B holds proxy p (from owner A) and passes it to C as a their-reference.  makeGift counts the gift in B's gift table;
-   C sends decgift only after its own getReference for the object has completed (TheirReferenceUnslicer.ackGift).  The
-   proxy p is alive as long as B's application holds it OR the gift table entry holds it (whether it does: read from the
-   source, gift_table_pins_proxy).  While p is alive B sends no decref, so A keeps the object (C09_no_early_release). *)
-Record gifter := { g_app : bool; g_gifts : Z }.
-Inductive gop := GiveAway | AppDrops | DecGift.
-
-Definition gstep (g : gifter) (o : gop) : gifter :=
-  match o with
-  | GiveAway => if g_app g then {| g_app := true; g_gifts := g_gifts g + 1 |} else g   (* only a held proxy can be sent *)
-  | AppDrops => {| g_app := false; g_gifts := g_gifts g |}
-  | DecGift => if 0 <? g_gifts g then {| g_app := g_app g; g_gifts := g_gifts g - 1 |} else g
-  end.
-
-Fixpoint grun (g : gifter) (ops : list gop) : gifter :=
-  match ops with [] => g | o :: r => grun (gstep g o) r end.
-
-Definition gproxy_alive (pins : bool) (g : gifter) : bool := g_app g || (pins && (0 <? g_gifts g)).
-Definition ginit : gifter := {| g_app := true; g_gifts := 0 |}.
